@@ -10,6 +10,7 @@ fields from 0, list items from 1) and name paths; `flattenAst` = reset, dump, po
 import Paroxy.Proofs.FlatPath
 import Paroxy.Proofs.FlatHash
 import Paroxy.Proofs.FlatEntries
+import Paroxy.Proofs.FlatTweaks
 namespace Paroxy.Props.C15
 open Paroxy.Flat
 
@@ -101,5 +102,74 @@ theorem C15_sequence (cfg : Cfg) (s : HashState) (ts : List Val) :
   induction ts generalizing s with
   | nil => rfl
   | cons t ts ih => simp only [flattenSeq, List.map_cons, ih]; rfl
+
+/-! ## "With the documented tweaks only": line-level passes are tree-level tweaks
+
+The full statement is `C15_tweaks_full` below (a `def … : Prop`, not proved): every pass of
+`post_process`, applied to the dump of a well-formed tree, is the dump of the tree-level tweak.
+Two of the six passes are proved here (`unquote`, `suppress_kinds`), each under *local* clauses
+(`wfUnquote`, `wfKinds`: per name / type / scalar, Bool-valued, checked by the harness on every real
+tree). The four others (`suppress_alias_pos`, `suppress_posonlyargs`, `backport_all_constants`,
+`simplify_negative_literals`) and the composition are exercised by the correspondence only
+(`c15.spec` = dump of `tweak`), on every run. -/
+
+/-- Full statement (not proved): post-processing the dump = dumping the tweaked tree. -/
+def C15_tweaks_full (WF : Val → Prop) : Prop :=
+  ∀ (h : Str → Str) (t : Val), WF t → postProcess (dumpP h [] [] t) = dumpP h [] [] (tweak [] t)
+
+/-- **C15 (tweak: unquote), partial.** On the dump of a tree satisfying the local clauses of
+`wfUnquote` (no `=` in names; types untouched by the pass; on every scalar the pass does what the
+scalar's real kind says), the line-level pass `unquote` is exactly the dump of the tree in which every
+`str` scalar has lost its two delimiters — and nothing else has changed. -/
+theorem C15_tweak_unquote_partial (t0 t : Val) (hwf : wfUnquote t = true) :
+    unquote (dumpP (hashFn t0) [] [] t) = dumpP (hashFn t0) [] [] (unquoteTree t) :=
+  unquote_dumpP (hashFn t0) (hashNoQuote_hashFn t0) t [] [] (by simp) (by simp) hwf
+
+/-- **C15 (tweak: suppress_kinds), partial.** On the dump of a tree satisfying `wfKinds` (no `=` or
+`/` in names, no `=` in types, no `/kind=` inside scalars, a scalar field `kind` is the last field of
+its node), the line-level pass `suppress_kinds` is exactly the dump of the tree from which the scalar
+fields called `kind` have been removed below the root. -/
+theorem C15_tweak_kinds_partial (t0 : Val) (ty : Str) (e : Bool) (r : Str) (ln : Option Nat)
+    (fs : List (Str × Val)) (hwf : wfKinds (.node ty e r ln fs) = true) :
+    suppressKinds (dumpP (hashFn t0) [] [] (.node ty e r ln fs)) =
+      dumpP (hashFn t0) [] [] (dropKinds false (.node ty e r ln fs)) :=
+  suppressKinds_dumpP (hashFn t0) (eq_not_mem_hashFn t0) _ [] [] (by simp) (by simp) hwf (by intro r k; simp)
+
+/-- Non-vacuity: `x = u'a'` (exported shape) satisfies both sets of clauses. -/
+def sampleConst : Val :=
+  .node cs!"Module" false [] none
+    [(cs!"body", .list false
+      [.node cs!"Expr" false [] (some 1)
+        [(cs!"value", .node cs!"Constant" true cs!"Constant(value='a', kind='u')" (some 1)
+          [(cs!"value", .scalar cs!"'a'" .str), (cs!"kind", .scalar cs!"'u'" .str)])]])]
+
+example : wfUnquote sampleConst = true ∧ wfKinds sampleConst = true := by decide
+example : suppressKinds (dumpP id [] [] sampleConst) =
+    [cs!"/_type=Module", cs!"/body/_length=1", cs!"/body/1/_type=Expr", cs!"/body/1/_pos=1:1-",
+     cs!"/body/1/value/_type=Constant", cs!"/body/1/value/_hash=Constant(value='a', kind='u')",
+     cs!"/body/1/value/_pos=1:1-0-", cs!"/body/1/value/value='a'"] := by decide
+
+/-! ## Witnesses of the recorded findings (the code as written vs the documented tweaks) -/
+
+def asyncDef : Val :=
+  .node cs!"AsyncFunctionDef" false [] (some 1)
+    [(cs!"name", .scalar cs!"'f'" .str), (cs!"body", .list false []), (cs!"decorator_list", .list false [])]
+
+/-- Finding 9: the code as written (`implCfg`) does not move the body of an `AsyncFunctionDef` last,
+the documented reordering (`specCfg`) does. -/
+theorem C15_async_counterexample :
+    dumpP id [] [] (onTheFly implCfg asyncDef) ≠ dumpP id [] [] (onTheFly specCfg asyncDef) := by decide
+
+/-- Finding 11: the repr-prefix test of `replace_one_constant` disagrees with the real kind for a
+bytes literal whose repr is double-quoted (`b"it's"`): `Num` instead of `Bytes`. -/
+theorem C15_bytes_counterexample :
+    (constantKindOfRepr cs!"b\"it's\"").1 = cs!"Num" ∧ kindTypeName .bytes = cs!"Bytes" := by decide
+
+/-- Finding 15: the local clause of `wfKinds` fails for a string containing `/kind=`, and the pass then
+deletes the value line of the constant. -/
+theorem C15_kind_in_string_counterexample :
+    wfKinds (.scalar cs!"'a/kind=b'" .str) = false ∧
+      suppressKinds [cs!"/body/1/value/_type=Constant", cs!"/body/1/value/value='a/kind=b'"] =
+        [cs!"/body/1/value/_type=Constant"] := by decide
 
 end Paroxy.Props.C15
